@@ -222,6 +222,9 @@ func (x *Exec) materialize(st *State, val Val) T {
 	}
 	key := pathKey(a.path)
 	f := declFun("faddr", []string{SInt, SInt}, SInt)
+	// the address of a part of an object is as old as the object: parts of objects allocated by the
+	// verified function are outside every frame, parts of older objects inside
+	addAxiom("faddr age", []string{f}, fmt.Sprintf("(forall ((r Int) (i Int)) (! (and (< 0 (%s r i)) (= (< (%s r i) %s) (< r %s))) :pattern ((%s r i))))", f, f, entryNextSym().S, entryNextSym().S, f))
 	id := int64(typeTag(types.NewPointer(a.typ))*1000) + int64(pathHash(key))
 	return app(SInt, f, root, mkInt(id))
 }
@@ -542,6 +545,51 @@ func (x *Exec) doAlloc(st *State, v *ssa.Alloc) {
 		}
 	}
 	st.vals[v] = Val{T: r, typ: v.Type()}
+	x.zeroMutexes(st, r, t)
+}
+
+// zeroMutexes: the mutexes inside a freshly allocated object are unlocked (ghost field mstate = 0 at their addresses).
+func (x *Exec) zeroMutexes(st *State, r T, t types.Type) {
+	isMutex := func(t types.Type) bool {
+		n, ok := t.(*types.Named)
+		return ok && n.Obj().Pkg() != nil && n.Obj().Pkg().Path() == "sync" && (n.Obj().Name() == "Mutex" || n.Obj().Name() == "RWMutex")
+	}
+	setZero := func(addr T) {
+		h, ok := st.heaps["Gf mstate"]
+		if !ok {
+			h = declConst("Gf mstate", arraySort(SInt, SInt))
+		}
+		st.setHeap("Gf mstate", store(h, addr, mkInt(0)))
+	}
+	if isMutex(t) {
+		setZero(r)
+		return
+	}
+	var walk func(t types.Type, path []pstep, depth int)
+	walk = func(t types.Type, path []pstep, depth int) {
+		u, ok := t.Underlying().(*types.Struct)
+		if !ok || depth > 4 {
+			return
+		}
+		for i := 0; i < u.NumFields(); i++ {
+			ft := u.Field(i).Type()
+			p := append(append([]pstep{}, path...), pstep{field: i, cont: t})
+			if isMutex(ft) {
+				a := &Addr{kind: aStruct, root: r, rootT: deref(types.NewPointer(t)), path: p, typ: ft}
+				if depth > 0 {
+					continue // nested structs: addresses are formed from the outermost object; keep it simple
+				}
+				setZero(x.materialize(st, Val{addr: a}))
+				continue
+			}
+			if _, isS := ft.Underlying().(*types.Struct); isS && !isMutex(ft) {
+				walk(ft, p, depth+1)
+			}
+		}
+	}
+	if isStruct(t) {
+		walk(t, nil, 0)
+	}
 }
 
 func (x *Exec) doUnOp(st *State, fr *Frame, v *ssa.UnOp) {
